@@ -164,6 +164,9 @@ pub enum Op {
     SetDesc { kind: DKind, name: String, id: usize },
     /// `parse_expression(text)?.describe()`
     Describe { prog: Prog },
+    /// a SLOW handler: a plain scheduling point in the middle of user code (other simulated threads may run
+    /// while this one is parked inside its handler); no effect of its own
+    Pause,
     /// run the operations on a freshly spawned simulated thread and join it
     OnThread { ops: Vec<Op> },
     /// thread teardown: a freshly spawned simulated thread runs the operations in its body and then ONCE MORE
